@@ -342,7 +342,7 @@ OBLIGATIONS = [
        sym=dict(m1=R(0, 2), u2=R(0, 1), m2=R(0, 2), vA=B, vB=B, sA=B, sB=B, order=R(0, 1),
                 s0=R(0, 2), s1=R(0, 2), s2=R(0, 2)),
        shards=dict(m1=[0, 1, 2], m2=[0, 1, 2], order=[0, 1]),
-       timeout=200, thorough_timeout=600,
+       timeout=500, thorough_timeout=900,
        thorough_sym=dict(s0=R(0, 6), s1=R(0, 6), s2=R(0, 6)),
        functions=[C.SSHConnection._process_userauth_request, C.SSHConnection._finish_userauth,
                   C.SSHConnection.send_userauth_success, C.SSHConnection.send_userauth_failure,
